@@ -6,7 +6,7 @@ from lib import Result, model_call, run_sharded, e_fmt, e_f64, Reader
 
 RULE = ('pairs of formats with n_word<=24 (any signedness mix, n_frac -1..n_word+1) with values chosen adjacent to each other across the two formats (equal, one LSB apart, at the bounds), '
         'Fxp vs Fxp (scalars and arrays) and Fxp vs plain number (int and float); conversions get_val / astype(float) / float() / astype(int) / int() / bool() / raw() / uraw() for every code of every '
-        'format with n_word<=6 (quick) / <=8 (thorough) and n_frac -1..n_word+1, plus random wider formats; the left object is reached by four histories (raw constructor; built from integers, resized, then written raw or through equal(); like= an integer object with n_frac=). Numbers also on the left (Python, np.float64, np.int64 / np.float32), array_op_method raw on the left object, and the six NumPy comparison functions called by name (default method). The six relations and the conversions are evaluated with exact rationals on the implementation output and '
+        'format with n_word<=6 (quick) / <=8 (thorough) and n_frac -1..n_word+1, plus random wider formats; the left object is reached by six histories (raw constructor; built from integers, resized, then written raw or through equal(); like= an integer object with n_frac=; built from a list of uint64 scalars; raw constructor followed by a REJECTED indexed write of an integer). Numbers also on the left (Python, np.float64, np.int64 / np.float32), array_op_method raw on the left object, and the six NumPy comparison functions called by name (default method). The six relations and the conversions are evaluated with exact rationals on the implementation output and '
         'compared with the model. Non-trivial = the two values differ by at most 2 LSB of the finer format (comparisons) / the code is non-zero (conversions); distinct by full input.')
 ASSUMPTIONS = []
 OPS = ['<', '<=', '==', '!=', '>', '>=']
@@ -14,11 +14,19 @@ OPS = ['<', '<=', '==', '!=', '>', '>=']
 def pyop(op, a, b):
     return {'<': a < b, '<=': a <= b, '==': a == b, '!=': a != b, '>': a > b, '>=': a >= b}[op]
 
-BUILDS = ['raw', 'int_resize_raw', 'int_resize_equal', 'like_int', 'u64list_raw']
+BUILDS = ['raw', 'int_resize_raw', 'int_resize_equal', 'like_int', 'u64list_raw', 'raw_rejected_write']
 def build(fx, np, s, nw, nf, codes, shape=None, how='raw'):
     """an object holding the given raw codes, reached through different histories (the hidden value type differs: an object built
     from integers keeps an integer value type until a write resets it)"""
     if how == 'raw' or nw >= 64: return A.mk(fx, np, s, nw, nf, codes, shape=shape)
+    if how == 'raw_rejected_write':
+        # the object has seen a write that was REJECTED (an index out of range): the stored codes are untouched, and so must be every reading
+        x = A.mk(fx, np, s, nw, nf, codes, shape=shape)
+        try:
+            if shape is None: x.set_val(2, index=1)
+            else: x[int(np.prod(shape))] = 1
+        except (IndexError, ValueError, TypeError): pass
+        return x
     if how == 'u64list_raw':
         # built from a LIST of NumPy uint64 scalars (the value type is then the dtype instance uint64, not a Python type), then written raw
         x = fx.Fxp([np.uint64(1), np.uint64(0)], s, nw, nf)
